@@ -1031,4 +1031,250 @@ Section Proofs.
     - intro H. destruct (a_last ar) as [m|] eqn:Hla; [|discriminate H].
       destruct Hl as [Hl _]; [discriminate|]. rewrite Hl. apply Hpr. exact H.
   Qed.
+
+  (** ** both modes at once *)
+  Definition app_ok (a : app C E) (edges S : list E) : Prop :=
+    connection_of edges S /\ (app_all_ok a edges S \/ app_window_ok a S).
+
+  Theorem serve_ok (a : app C E) edges S ar af bf :
+    app_ok a edges S ->
+    args_rejected (a_first ar) (a_last ar) = false ->
+    decode_arg (a_after ar) EInvalidAfter = Ok af -> decode_arg (a_before ar) EInvalidBefore = Ok bf ->
+    response_ok S af bf (a_first ar) (a_last ar) (serve a ar).
+  Proof.
+    intros [HC [H|H]]; [apply (serve_all_ok a edges S ar af bf HC H) | apply (serve_window_ok a S ar af bf (proj2 HC) H)].
+  Qed.
+
+  Lemma await_sync {A} (x : A) : await (Ok (Sync x)) = Ok x.
+  Proof. reflexivity. Qed.
+
+  (** ** sync or promise: the same answer *)
+  Theorem promise_equiv (a1 a2 : app C E) ar :
+    app_has_all a1 = app_has_all a2 -> app_total a1 = app_total a2 ->
+    (exists l, delivers (app_all a1) l /\ delivers (app_all a2) l) ->
+    (forall af bf limit, exists l, delivers (app_edges a1 af bf limit) l /\ delivers (app_edges a2 af bf limit) l) ->
+    serve a1 ar = serve a2 ar.
+  Proof.
+    intros Hall Htot [la [Hla1 Hla2]] Hed. unfold RelayModel.serve.
+    destruct (check_counts ar) as [e|] eqn:Hc.
+    { unfold RelayModel.resolve. rewrite Hc. reflexivity. }
+    destruct (decode_arg (a_after ar) EInvalidAfter) as [af|e] eqn:Ha.
+    2:{ unfold RelayModel.resolve. rewrite Hc, Ha. reflexivity. }
+    destruct (decode_arg (a_before ar) EInvalidBefore) as [bf|e] eqn:Hb.
+    2:{ unfold RelayModel.resolve. rewrite Hc, Ha, Hb. reflexivity. }
+    rewrite (resolve_unfold a1 ar af bf Hc Ha Hb), (resolve_unfold a2 ar af bf Hc Ha Hb). cbv zeta.
+    destruct (Hed af bf (limit_of ar)) as [le [Hle1 Hle2]].
+    assert (Hsrc : exists l, delivers (if app_has_all a1 then app_all a1 else app_edges a1 af bf (limit_of ar)) l /\
+                             delivers (if app_has_all a2 then app_all a2 else app_edges a2 af bf (limit_of ar)) l).
+    { rewrite <- Hall. destruct (app_has_all a1); eauto. }
+    destruct Hsrc as [l [Hs1 Hs2]].
+    assert (Hcn : complete_now a1 ar bf af l = complete_now a2 ar bf af l).
+    { unfold RelayModel.complete_now. rewrite Htot. reflexivity. }
+    destruct ((limit_of ar =? 1) || (limit_of ar =? -1)); simpl fst; unfold observe.
+    - rewrite !await_sync. cbv beta iota. cbn [cn_edges cn_page_info cn_total].
+      rewrite (await_lazy_page_info a1 ar bf af _ l Hs1), (await_lazy_page_info a2 ar bf af _ l Hs2), Hcn.
+      f_equal. unfold lazy_total. rewrite <- Htot, <- Hall. destruct (app_total a1); [reflexivity|].
+      destruct (app_has_all a1); [|reflexivity].
+      destruct Hla1 as [-> | ->], Hla2 as [-> | ->]; reflexivity.
+    - rewrite (await_complete_connection a1 ar bf af _ l Hs1), (await_complete_connection a2 ar bf af _ l Hs2), Hcn.
+      reflexivity.
+  Qed.
+
+  (** ** walks *)
+  Definition as_server (a : app C E) (first last : option Z) (after before : option bytes) : option (page E) :=
+    match serve a {| a_first := first; a_last := last; a_after := after; a_before := before |} with
+    | RData edges (Ok sp) _ =>
+        Some {| pg_edges := edges; pg_has_prev := sp_prev sp; pg_has_next := sp_next sp;
+                pg_start := sp_start sp; pg_end := sp_end sp |}
+    | _ => None
+    end.
+
+  Lemma last_error_In (l : list E) e : last_error l = Some e -> In e l.
+  Proof.
+    induction l as [|x r IH]; simpl; [discriminate|]. destruct r as [|y r'].
+    - intro H. inversion H. left. reflexivity.
+    - intro H. right. apply IH. exact H.
+  Qed.
+
+  Lemma last_error_some (l : list E) : l <> [] -> exists e, last_error l = Some e.
+  Proof.
+    induction l as [|x r IH]; [congruence|]. intros _. destruct r as [|y r'].
+    - exists x. reflexivity.
+    - destruct IH as [e He]; [discriminate|]. exists e. exact He.
+  Qed.
+
+  Lemma last_error_max (l : list E) e : ordered l -> last_error l = Some e ->
+    forall x, In x l -> x = e \/ ltb (cur x) (cur e) = true.
+  Proof.
+    induction 1 as [|a r Hs IH Hf]; simpl; [discriminate|]. destruct r as [|y r'].
+    - intros H x [Hx|[]]. inversion H. subst. left. reflexivity.
+    - intros H x [Hx|Hx].
+      + subst x. right. rewrite Forall_forall in Hf. apply Hf. apply last_error_In. exact H.
+      + apply IH; assumption.
+  Qed.
+
+  Lemma hd_error_min (l : list E) e : ordered l -> hd_error l = Some e ->
+    forall x, In x l -> x = e \/ ltb (cur e) (cur x) = true.
+  Proof.
+    intros Ho H x Hx. destruct l as [|a r]; [discriminate|]. simpl in H. inversion H; subst a.
+    apply StronglySorted_inv in Ho as [_ Hf]. rewrite Forall_forall in Hf.
+    destruct Hx as [Hx|Hx]; [left; congruence | right; apply Hf; exact Hx].
+  Qed.
+
+  (** after a page of [k] edges, the edges after its last cursor are the remaining ones *)
+  Lemma range_after_last S pos k e :
+    ordered S -> last_error (firstn k (range S None pos)) = Some e ->
+    range S None (Some (cur e)) = skipn k (range S None pos).
+  Proof.
+    intros Ho Hlast. set (R := range S None pos) in *.
+    pose proof (range_ordered S pos None Ho) as HoR. fold R in HoR.
+    assert (HeA : In e (firstn k R)) by (apply last_error_In; exact Hlast).
+    assert (HeR : In e R) by (eapply firstn_incl; exact HeA).
+    assert (Hstep1 : range S None (Some (cur e)) = filter (fun x => ltb (cur e) (cur x)) R).
+    { unfold R, position_apply_cursors. rewrite filter_filter_implied.
+      - apply filter_ext_in_local. intros x _. unfold RelaySpec.in_range. apply andb_true_r.
+      - intros x _ Hx. unfold RelaySpec.in_range. rewrite andb_true_r. destruct pos as [p|]; [|reflexivity].
+        apply range_In in HeR as [_ HeR]. unfold RelaySpec.in_range in HeR. rewrite andb_true_r in HeR.
+        eapply ltb_trans; eassumption. }
+    rewrite Hstep1. rewrite <- (firstn_skipn k R) at 1. rewrite filter_app.
+    rewrite <- (firstn_skipn k R) in HoR. apply (SSorted_app_inv E lt_e) in HoR as [HoA [HoB Hlt]].
+    rewrite filter_all_false, filter_all_true; [reflexivity | |].
+    - intros y Hy. apply (Hlt e y HeA Hy).
+    - intros x Hx. destruct (last_error_max _ e HoA Hlast x Hx) as [->|Hxe]; [apply ltb_irrefl|].
+      destruct (ltb (cur e) (cur x)) eqn:Hex; [exfalso; eapply ltb_asym; eassumption | reflexivity].
+  Qed.
+
+  (** before a page made of the last edges of the range, the edges before its first cursor are
+      the remaining ones *)
+  Lemma range_before_first S pos k e :
+    ordered S -> hd_error (skipn k (range S pos None)) = Some e ->
+    range S (Some (cur e)) None = firstn k (range S pos None).
+  Proof.
+    intros Ho Hhd. set (R := range S pos None) in *.
+    pose proof (range_ordered S None pos Ho) as HoR. fold R in HoR.
+    assert (HeB : In e (skipn k R)) by (destruct (skipn k R); [discriminate | inversion Hhd; left; reflexivity]).
+    assert (HeR : In e R) by (eapply skipn_incl; exact HeB).
+    assert (Hstep1 : range S (Some (cur e)) None = filter (fun x => ltb (cur x) (cur e)) R).
+    { unfold R, position_apply_cursors. rewrite filter_filter_implied.
+      - apply filter_ext_in_local. intros x _. reflexivity.
+      - intros x _ Hx. unfold RelaySpec.in_range. simpl. destruct pos as [p|]; [|reflexivity].
+        apply range_In in HeR as [_ HeR]. unfold RelaySpec.in_range in HeR. simpl in HeR.
+        eapply ltb_trans; eassumption. }
+    rewrite Hstep1. rewrite <- (firstn_skipn k R) at 1. rewrite filter_app.
+    rewrite <- (firstn_skipn k R) in HoR. apply (SSorted_app_inv E lt_e) in HoR as [HoA [HoB Hlt]].
+    rewrite filter_all_true, filter_all_false; [apply app_nil_r | |].
+    - intros y Hy. destruct (hd_error_min _ e HoB Hhd y Hy) as [->|Hey]; [apply ltb_irrefl|].
+      destruct (ltb (cur y) (cur e)) eqn:Hye; [exfalso; eapply ltb_asym; eassumption | reflexivity].
+    - intros x Hx. apply (Hlt x e Hx HeB).
+  Qed.
+
+  Section Walks.
+    Variable a : app C E.
+    Variables edges S : list E.
+    Hypothesis Happ : app_ok a edges S.
+    (** every cursor the server emits is accepted back and denotes the same position
+        ([CursorCodecProofs.cursor_roundtrip] for the real codec), and is not the empty string *)
+    Hypothesis decode_encode : forall e, In e S -> decode (encode (cur e)) = Some (cur e).
+    Hypothesis encode_nonempty : forall c, encode c <> [].
+
+    Definition denotes (arg : option bytes) (pos : option C) : Prop :=
+      (arg = None /\ pos = None) \/ (exists e, In e S /\ arg = Some (encode (cur e)) /\ pos = Some (cur e)).
+
+    Lemma denotes_decode arg pos er : denotes arg pos -> decode_arg arg er = Ok pos.
+    Proof.
+      intros [[-> ->]|[e [He [-> ->]]]]; [reflexivity|]. unfold RelayModel.decode_arg.
+      destruct (encode (cur e)) as [|x s] eqn:Henc; [exfalso; eapply encode_nonempty; exact Henc|].
+      rewrite <- Henc, (decode_encode e He). reflexivity.
+    Qed.
+
+    Lemma flag_exact (b r al : bool) : (r = true -> b = true) -> (b = true -> al = true) -> r = al -> b = r.
+    Proof. destruct b, r, al; intros H1 H2 H3; try reflexivity; try discriminate; auto. symmetry; auto. Qed.
+
+    Theorem walk_forward_gen n : 1 <= n -> forall fuel after pos,
+      denotes after pos -> (length (range S None pos) < fuel)%nat ->
+      walk_forward E (as_server a) n fuel after = Done (range S None pos).
+    Proof.
+      intros Hn fuel. induction fuel as [|fuel IH]; intros after pos Hden Hfuel; [lia|].
+      simpl. unfold as_server at 1.
+      set (ar := {| a_first := Some n; a_last := None; a_after := after; a_before := None |}).
+      assert (Hrej : args_rejected (a_first ar) (a_last ar) = false) by (simpl; lia).
+      destruct (serve_ok a edges S ar pos None Happ Hrej (denotes_decode _ _ _ Hden) eq_refl)
+        as [page [sp [Hserve [Hedges [Hord [Hst [Hen [Hnr [Hna _]]]]]]]]].
+      rewrite Hserve. simpl pg_has_next. simpl pg_edges. simpl pg_end.
+      simpl in Hedges, Hnr, Hna. unfold RelaySpec.spec_edges, slice_edges in Hedges.
+      replace (n <? 0) with false in Hedges by lia. inversion Hedges as [Hpage]. clear Hedges.
+      set (R := range S None pos) in *.
+      assert (Hnext : sp_next sp = count_gt E R n).
+      { apply (flag_exact _ _ (count_gt E R n)); auto. }
+      rewrite Hnext. unfold count_gt, RelaySpec.keep_first in *.
+      destruct (Z.of_nat (length R) >? n) eqn:Hgt; [|reflexivity].
+      (* a full page; its last edge is where the next request starts *)
+      assert (Hne : firstn (Z.to_nat n) R <> []).
+      { intro H. apply (f_equal (@length E)) in H. rewrite firstn_length in H. simpl in H. lia. }
+      destruct (last_error_some _ Hne) as [e He].
+      rewrite Hen, <- Hpage. unfold enc_opt. rewrite He.
+      assert (HeS : In e S).
+      { apply last_error_In in He. apply firstn_incl in He. apply range_In in He. tauto. }
+      pose proof (range_after_last S pos (Z.to_nat n) e (proj2 (proj1 Happ)) He) as Hrest. fold R in Hrest.
+      rewrite (IH (Some (encode (cur e))) (Some (cur e))).
+      - rewrite Hrest. rewrite firstn_skipn. reflexivity.
+      - right. exists e. auto.
+      - rewrite Hrest, skipn_length. lia.
+    Qed.
+
+    (** following endCursor with [after], page size n >= 1: the concatenation of the pages is the
+        connection — every edge exactly once, in order *)
+    Theorem walk_forward_exact n : 1 <= n ->
+      walk_forward E (as_server a) n (Datatypes.S (length S)) None = Done S.
+    Proof.
+      intro Hn. rewrite (walk_forward_gen n Hn _ None None).
+      - f_equal. apply filter_all_true. reflexivity.
+      - left. split; reflexivity.
+      - assert (H : range S None None = S) by (apply filter_all_true; reflexivity). rewrite H. lia.
+    Qed.
+
+    Theorem walk_backward_gen n : 1 <= n -> forall fuel before pos,
+      denotes before pos -> (length (range S pos None) < fuel)%nat ->
+      walk_backward E (as_server a) n fuel before = Done (range S pos None).
+    Proof.
+      intros Hn fuel. induction fuel as [|fuel IH]; intros before pos Hden Hfuel; [lia|].
+      simpl. unfold as_server at 1.
+      set (ar := {| a_first := None; a_last := Some n; a_after := None; a_before := before |}).
+      assert (Hrej : args_rejected (a_first ar) (a_last ar) = false) by (simpl; lia).
+      destruct (serve_ok a edges S ar None pos Happ Hrej eq_refl (denotes_decode _ _ _ Hden))
+        as [page [sp [Hserve [Hedges [Hord [Hst [Hen [_ [_ [Hpr [Hpa _]]]]]]]]]]].
+      rewrite Hserve. simpl pg_has_prev. simpl pg_edges. simpl pg_start.
+      simpl in Hedges, Hpr, Hpa. unfold RelaySpec.spec_edges, slice_edges in Hedges.
+      replace (n <? 0) with false in Hedges by lia. inversion Hedges as [Hpage]. clear Hedges.
+      set (R := range S pos None) in *.
+      assert (Hprev : sp_prev sp = count_gt E R n).
+      { apply (flag_exact _ _ (count_gt E R n)); auto. }
+      rewrite Hprev. unfold count_gt, RelaySpec.keep_last in *.
+      destruct (Z.of_nat (length R) >? n) eqn:Hgt; [|reflexivity].
+      rewrite lastn_skipn in *.
+      set (k := (length R - Z.to_nat n)%nat) in *.
+      assert (Hne : skipn k R <> []).
+      { intro H. apply (f_equal (@length E)) in H. rewrite skipn_length in H. simpl in H. lia. }
+      destruct (skipn k R) as [|e t] eqn:Hsk; [congruence|].
+      rewrite Hst, <- Hpage. unfold enc_opt. simpl hd_error. cbv iota.
+      assert (HeS : In e S).
+      { assert (H : In e (skipn k R)) by (rewrite Hsk; left; reflexivity).
+        apply skipn_incl in H. apply range_In in H. tauto. }
+      assert (Hhd : hd_error (skipn k (range S pos None)) = Some e) by (fold R; rewrite Hsk; reflexivity).
+      pose proof (range_before_first S pos k e (proj2 (proj1 Happ)) Hhd) as Hrest. fold R in Hrest.
+      rewrite (IH (Some (encode (cur e))) (Some (cur e))).
+      - rewrite Hrest. rewrite <- Hsk. rewrite firstn_skipn. reflexivity.
+      - right. exists e. auto.
+      - rewrite Hrest, firstn_length. lia.
+    Qed.
+
+    Theorem walk_backward_exact n : 1 <= n ->
+      walk_backward E (as_server a) n (Datatypes.S (length S)) None = Done S.
+    Proof.
+      intro Hn. rewrite (walk_backward_gen n Hn _ None None).
+      - f_equal. apply filter_all_true. reflexivity.
+      - left. split; reflexivity.
+      - assert (H : range S None None = S) by (apply filter_all_true; reflexivity). rewrite H. lia.
+    Qed.
+  End Walks.
 End Proofs.
